@@ -91,7 +91,7 @@ claim("C06", "exploration", "om",
 
 claim("C07", "fault_enumeration", "group",
       "runtime monitor of real ConsumerGroup members (each with its own client) against a simulated group coordinator implementing Kafka's group state machine: trace automaton per Consume call over a recording handler (Setup / ConsumeClaim / Cleanup), coordinator-side event log for identities, start offsets, final commits and assignments, delivery coverage across sessions, quiescence-judged termination, race detector",
-      "Enumerated core: every single fault (and fault after one ok; pairs in thorough) x request kind (find-coordinator, join, sync, heartbeat, commit, leave, offset-fetch; join faults also on the 2nd-4th join) x two handler behaviours on a one-member scenario; plus seeded scenarios with 1-3 members, 1-2 topics, 3 strategies, 7 handler behaviours (incl. marking inside Cleanup), late joiners, Close mid-session, context cancellation, pre-stored commits (inside, below and beyond the log), Consumer.Offsets.Retention, claims that cannot be started (ListOffsets failing per partition), members without claims. Injected UNKNOWN_MEMBER_ID answers are made true at the coordinator (the member is removed); UNKNOWN_MEMBER_ID anywhere and ILLEGAL_GENERATION on a join or sync count as fencing for the fresh-identity clause.",
+      "Enumerated core: every single fault (and fault after one ok; pairs in thorough) x request kind (find-coordinator, join, sync, heartbeat, commit, leave, offset-fetch; join faults also on the 2nd-4th join) x two handler behaviours on a one-member scenario; plus seeded scenarios with 1-3 members, 1-2 topics, 3 strategies, 7 handler behaviours (incl. marking inside Cleanup), late joiners, Close mid-session, context cancellation, pre-stored commits (inside, below and beyond the log), Consumer.Offsets.Retention, claims that cannot be started (ListOffsets failing per partition), a partition that is leaderless while the group leader plans, members without claims. Injected UNKNOWN_MEMBER_ID answers are made true at the coordinator (the member is removed); UNKNOWN_MEMBER_ID anywhere and ILLEGAL_GENERATION on a join or sync count as fencing for the fresh-identity clause.",
       "Held on the executions of the run. The final-commit clause is only judged when the member's commit path was not disturbed by injected faults; 'exactly one claim unless the session is ending' is judged as at-most-one, plus: an assigned partition without ConsumeClaim in a session that goes on for 12+ successful heartbeats after its last claim started is a violation.",
       "DESIGN.md §7 C07")
 
